@@ -213,6 +213,42 @@ def install(rt: Runtime) -> Runtime:
         cols = [c.vals if isinstance(c, Vec) else list(c) for c in t]
         return [list(x) for x in zip(*cols)]
 
+    def elementwise(f2):
+        def g(a, b, **kw):
+            if isinstance(a, Vec) or isinstance(b, Vec):
+                n = len(a.vals) if isinstance(a, Vec) else len(b.vals)
+                av = a.vals if isinstance(a, Vec) else [a] * n
+                bv = b.vals if isinstance(b, Vec) else [b] * n
+                return Vec([f2(x, y, **kw) for x, y in zip(av, bv)])
+            return f2(a, b, **kw)
+        return g
+
+    def isclose(x, y, rtol=1e-05, atol=1e-08, equal_nan=False):
+        return abs(x - y) <= (atol + rtol * abs(y))
+    ex["numpy.isclose"] = fn(elementwise(isclose))
+    ex["numpy.allclose"] = fn(lambda a, b, **kw: all(elementwise(isclose)(a, b, **kw).vals) if isinstance(a, Vec) or isinstance(b, Vec) else isclose(a, b, **kw))
+    ex["numpy.minimum"] = fn(elementwise(lambda x, y: min(x, y)))
+    ex["numpy.maximum"] = fn(elementwise(lambda x, y: max(x, y)))
+    ex["numpy.abs"] = fn(lambda v: Vec([abs(x) for x in v.vals]) if isinstance(v, Vec) else abs(v))
+    ex["numpy.absolute"] = ex["numpy.abs"]
+    ex["numpy.argmin"] = fn(lambda v: min(range(len(v.vals)), key=lambda i: v.vals[i]))
+    ex["numpy.argmax"] = fn(lambda v: max(range(len(v.vals)), key=lambda i: v.vals[i]))
+    ex["numpy.mean"] = fn(lambda v: sum(v.vals) / len(v.vals))
+    ex["numpy.any"] = fn(lambda v: any(v.vals if isinstance(v, Vec) else v))
+    ex["numpy.all"] = fn(lambda v: all(v.vals if isinstance(v, Vec) else v))
+    ex["numpy.round"] = fn(lambda v, d=0: Vec([round(x, d) for x in v.vals]) if isinstance(v, Vec) else round(v, d))
+    ex["numpy.unique"] = fn(lambda v: Vec(sorted(set(v.vals))))
+    ex["numpy.flatnonzero"] = fn(lambda v: Vec([i for i, m in enumerate(v.vals) if m]))
+    ex["numpy.nonzero"] = fn(lambda v: (Vec([i for i, m in enumerate(v.vals) if m]),))
+    ex["numpy.inf"] = float("inf")
+    ex["math.inf"] = float("inf")
+    ex["math.fabs"] = fn(lambda x: abs(x))
+    ex["math.isclose"] = fn(lambda x, y, rel_tol=1e-09, abs_tol=0.0: abs(x - y) <= max(rel_tol * max(abs(x), abs(y)), abs_tol))
+    ex["random.shuffle"] = fn(lambda seq: seq.reverse())
+    ex["random.random"] = fn(lambda: 0.5)
+    ex["random.randint"] = fn(lambda a, b: a)
+    ex["random.sample"] = fn(lambda seq, k: list(seq)[:k])
+
     ex["numpy.array"] = fn(np_array)
     ex["numpy.min"] = fn(np_min)
     ex["numpy.amin"] = fn(np_min)
